@@ -137,6 +137,10 @@ func Load(patterns []string) (*Engine, error) {
 		for _, cl := range fc.Ensures {
 			scan(cl.Expr)
 		}
+		for _, a := range fc.Afters {
+			scan(a.Expr)
+			eng.traced[a.Callee] = true
+		}
 		for _, lc := range fc.Loops {
 			for _, cl := range lc.Invariants {
 				scan(cl.Expr)
